@@ -412,7 +412,12 @@ pub fn run(modelrun: &str) {
         if m.starts_with("error") {
             out::line(&format!("X model {m}"));
         }
-        let v = model.call(&format!("CTRACE {}", trace.join(" ")));
+        // `proj=<classes>`: compare only events on these object classes (see CTRACEP in modelrun/driver.ml)
+        let proj = flags.split(',').find_map(|x| x.strip_prefix("proj="));
+        let v = match proj {
+            Some(p) => model.call(&format!("CTRACEP {} {}", p.replace('+', ","), trace.join(" "))),
+            None => model.call(&format!("CTRACE {}", trace.join(" "))),
+        };
         out::line(&format!("V {v}"));
         if drain {
             let r = catch_unwind(AssertUnwindSafe(|| {
